@@ -1355,3 +1355,71 @@ func driveTablesDynamic(c *DriverCtx) error {
 }
 
 func init() { Drivers["tables-dynamic"] = driveTablesDynamic }
+
+// Neighbouring values (C02/C08): after a message has been decoded, messages that differ from it in a
+// single bit of one fixed-width text are decoded in the same process - a cache or intern table
+// keyed too coarsely answers the second with the first.
+func driveNeighbours(c *DriverCtx) error {
+	for _, t := range c.types() {
+		td := S.Types[t]
+		fixed := []Field{}
+		keys := map[string]bool{}
+		for _, f := range td.Fields {
+			if f.Kind == "body" {
+				keys[f.Key] = true
+			}
+		}
+		for _, f := range td.Fields {
+			if f.Kind == "fixed" && f.N >= 1 && f.N <= 16 && !keys[f.Name] {
+				fixed = append(fixed, f)
+			}
+		}
+		if len(fixed) == 0 {
+			continue
+		}
+		for i := 0; i < c.N; i++ {
+			f := fixed[(i+len(t))%len(fixed)]
+			c.G.Small = true
+			v := c.G.Value(t, Canon)
+			c.G.Small = false
+			base := make([]int, f.N)
+			for j := range base {
+				base[j] = 0x30 + c.G.R.Intn(10)
+			}
+			ops := []Op{}
+			add := func(txt []int, k int) {
+				v2 := map[string]any{}
+				for kk, vv := range v {
+					v2[kk] = vv
+				}
+				v2[f.Name] = txt
+				o, b := fmt.Sprintf("m%d", k), fmt.Sprintf("b%d", k)
+				ops = append(ops, Op{Op: "new", O: o, V: v2}, Op{Op: "encode", B: b, O: o}, Op{Op: "decode", B: b, O: "r", T: t, Fresh: true, Tag: "neighbour"},
+					Op{Op: "encode", B: b + "x", O: "r", Tag: "reencode"})
+			}
+			add(base, 0)
+			k := 1
+			for j := 0; j < f.N; j++ {
+				for bit := 0; bit < 8; bit++ {
+					x := append([]int{}, base...)
+					x[j] ^= 1 << uint(bit)
+					if (f.Left && x[0] == f.Pad) || (!f.Left && x[f.N-1] == f.Pad) {
+						continue
+					}
+					add(x, k)
+					k++
+					if j > 1 && bit%3 != 0 { // all bits of the first two bytes, every third bit of the others
+						continue
+					}
+				}
+			}
+			add(base, k)
+			if err := c.Run(ops); err != nil {
+				return err
+			}
+		}
+	}
+	return nil
+}
+
+func init() { Drivers["neighbours"] = driveNeighbours }
